@@ -7,8 +7,12 @@ Subject: `HailVerif.TxRetry.run`, the model of `gear.database.transaction` = `re
 check `harness/props/c27.py` (the real `@transaction` wrapper over a fake aiomysql pool with fault injection at every
 statement index).
 
+A body statement is a pair `(issued with a query_name?, statement)`: with a `query_name` the `cursor.execute` of
+`Transaction.execute_*` runs inside `async with PrometheusSQLTimer(query_name)` (`gear/gear/metrics.py`); the truth value of that
+context manager's `__aexit__` result is re-read from the source on every run (`Generated.SqlTimer.aexitTruthy`).
+
 The theorems quantify over every database state type, every statement semantics `step` (statements may fail by
-themselves), every body, every fault script per attempt (any statement index, any error class and code) and every finite
+themselves), every body (every choice of instrumented statements), every fault script per attempt (any statement index, any error class and code) and every finite
 list of such scripts ("all sequences of injected MySQL errors at any statement of a transaction").
 Outside the model: statement-internal concurrency, and what the server / client library do to a connection after a
 network error (the fake pool's assumptions are listed in the evidence).
@@ -16,7 +20,7 @@ network error (the fake pool's assumptions are listed in the evidence).
 namespace HailVerif.C27
 open HailVerif.TxRetry
 
-variable {σ W : Type} (step : σ → W → Except Err σ) (db : σ) (body : List W)
+variable {σ W : Type} (step : σ → W → Except Err σ) (db : σ) (body : List (Bool × W))
 
 /-- An attempt that fails with `e` is followed by another attempt exactly when `e` is classified retryable. -/
 theorem retries_iff_retryable (f : Option (Nat × Err)) (fs : List (Option (Nat × Err))) (e : Err) (db' : σ)
@@ -56,6 +60,57 @@ theorem no_partial_writes (scripts : List (Option (Nat × Err))) :
     (∀ e, (run step db body scripts).error = some e → (run step db body scripts).db = db) :=
   runFrom_spec step db body scripts 0
 
+/-- An error raised by an instrumented statement (one issued with a `query_name`) leaves the metrics timer unchanged: the
+timer's `__aexit__` does not suppress it, so it reaches `Transaction._aexit` (rollback) and the retry wrapper. -/
+theorem instrumented_error_propagates (cur : σ) (e : Err) : timed true cur (.error e : Except Err σ) = .error e :=
+  timed_eq true cur _
+
+/-- Instrumentation is transparent: an attempt behaves the same whichever of its statements carry a `query_name`. -/
+theorem query_name_transparent (f : Option (Nat × Err)) :
+    ∀ cur : σ, exec step cur body f = exec step cur (body.map fun p => (false, p.2)) f := by
+  induction body generalizing f with
+  | nil => intro cur; rfl
+  | cons p ps ih =>
+    obtain ⟨q, w⟩ := p
+    intro cur
+    cases f with
+    | none =>
+      simp only [exec, timed_eq, List.map]
+      cases step cur w with
+      | error e' => rfl
+      | ok cur' => exact ih none cur'
+    | some fe =>
+      obtain ⟨i, e⟩ := fe
+      cases i with
+      | zero => simp [exec, timed_eq]
+      | succ i =>
+        simp only [exec, timed_eq, List.map]
+        cases step cur w with
+        | error e' => rfl
+        | ok cur' => exact ih (some (i, e)) cur'
+
+/-- … hence so does the whole retried operation. -/
+theorem run_query_name_transparent (scripts : List (Option (Nat × Err))) :
+    run step db body scripts = run step db (body.map fun p => (false, p.2)) scripts := by
+  have hatt : ∀ (d : σ) f, attempt step d body f = attempt step d (body.map fun p => (false, p.2)) f := by
+    intro d f
+    simp only [attempt, Conn.begin]
+    rw [query_name_transparent step body f d]
+  unfold run
+  generalize 0 = n
+  induction scripts generalizing n db with
+  | nil => simp only [runFrom, hatt]
+  | cons f fs ih =>
+    simp only [runFrom, hatt]
+    generalize attempt step db (body.map fun p => (false, p.2)) f = a
+    obtain ⟨db', err⟩ := a
+    cases err with
+    | none => rfl
+    | some e =>
+      by_cases hr : retryable e = true
+      · simp only [hr, if_true]; exact ih db' (n + 1)
+      · simp [hr]
+
 /-- The classifier retries exactly the transient conditions the property names … -/
 theorem only_transient_retried (e : Err) (h : retryable e = true) : e.code ∈ transientCodes := by
   obtain ⟨c, n⟩ := e
@@ -81,21 +136,29 @@ theorem other_errors_not_retried :
 /-! Non-vacuity on the concrete key/value database of the correspondence check. -/
 open KV in
 -- deadlock at the 2nd statement, then lock wait timeout at COMMIT, then a clean attempt: 3 attempts, all writes once
-example : (run KV.step [(1, 5)] [.upsert 1 2, .upsert 7 1, .update 1 10]
+example : (run KV.step [(1, 5)] [(false, .upsert 1 2), (true, .upsert 7 1), (true, .update 1 10)]
       [some (1, ⟨.operational, 1213⟩), some (3, ⟨.operational, 1205⟩)]).attempts = 3 := by decide
 open KV in
-example : (run KV.step [(1, 5)] [.upsert 1 2, .upsert 7 1, .update 1 10]
+example : (run KV.step [(1, 5)] [(false, .upsert 1 2), (true, .upsert 7 1), (true, .update 1 10)]
       [some (1, ⟨.operational, 1213⟩), some (3, ⟨.operational, 1205⟩)]).db = [(1, 17), (7, 1)] := by decide
 open KV in
 -- a syntax error at the 3rd statement after two writes: gives up, nothing written
-example : run KV.step [(1, 5)] [.upsert 1 2, .upsert 7 1, .update 1 10] [some (2, ⟨.programming, 1064⟩)]
+example : run KV.step [(1, 5)] [(false, .upsert 1 2), (true, .upsert 7 1), (true, .update 1 10)] [some (2, ⟨.programming, 1064⟩)]
     = ⟨[(1, 5)], some ⟨.programming, 1064⟩, 1⟩ := by decide
 open KV in
 -- a statement failing by itself (duplicate key) after a write: gives up, nothing written
-example : run KV.step [(1, 5)] [.upsert 2 2, .insert 1 0] [] = ⟨[(1, 5)], some ⟨.integrity, 1062⟩, 1⟩ := by decide
+example : run KV.step [(1, 5)] [(true, .upsert 2 2), (false, .insert 1 0)] [] = ⟨[(1, 5)], some ⟨.integrity, 1062⟩, 1⟩ := by decide
 open KV in
 -- a fault index beyond the COMMIT never fires
-example : run KV.step [] [.upsert 2 2] [some (9, ⟨.operational, 1213⟩)] = ⟨[(2, 2)], none, 1⟩ := by decide
+example : run KV.step [] [(false, .upsert 2 2)] [some (9, ⟨.operational, 1213⟩)] = ⟨[(2, 2)], none, 1⟩ := by decide
+open KV in
+-- a deadlock raised by an instrumented statement (issued with a query_name) is retried like any other: 2 attempts, writes once
+example : run KV.step [(1, 5)] [(true, .update 1 1), (true, .select 1), (true, .upsert 2 3)] [some (2, ⟨.operational, 1213⟩)]
+    = ⟨[(1, 6), (2, 3)], none, 2⟩ := by decide
+open KV in
+-- a non-transient error raised by an instrumented statement after a write: raised to the caller, nothing written
+example : run KV.step [(1, 5)] [(true, .update 1 1), (true, .upsert 2 3)] [some (1, ⟨.operational, 1054⟩)]
+    = ⟨[(1, 5)], some ⟨.operational, 1054⟩, 1⟩ := by decide
 example : pymysqlClass 1205 = .operational ∧ pymysqlClass 1213 = .operational ∧ pymysqlClass 2013 = .operational := by decide
 
 end HailVerif.C27
